@@ -39,6 +39,7 @@ type VConn struct {
 
 	nextMbox, nextMsg int
 	Mailboxes         map[imap.MailboxID][]string
+	State             connector.IMAPState // handed over by gluon at Init
 	Messages          map[imap.MessageID]*VMsg
 	Visibility        map[imap.MailboxID]imap.MailboxVisibility
 
@@ -92,7 +93,13 @@ func (c *VConn) TakeCalls() []CallRecord {
 	return r
 }
 
-func (c *VConn) Init(context.Context, connector.IMAPState) error { return nil }
+// Init keeps the IMAPState handle: the harness uses it to act as a connector that writes mailboxes itself.
+func (c *VConn) Init(_ context.Context, st connector.IMAPState) error {
+	c.mu.Lock()
+	c.State = st
+	c.mu.Unlock()
+	return nil
+}
 
 func (c *VConn) Authorize(_ context.Context, username string, password []byte) bool {
 	c.mu.Lock()
